@@ -69,7 +69,11 @@ func HarnessC13Grpc() {
 	if err != nil {
 		return
 	}
-	r, err := st.Query([]sqldriver.Value{})
+	vals := []sqldriver.Value{}
+	for _, a := range q.args {
+		vals = append(vals, a)
+	}
+	r, err := st.Query(vals)
 	switch {
 	case stub.fault != 0 || q.wantErr:
 		verifAssert(err != nil, "C13: a failed or malformed RPC answer must surface as an error")
